@@ -47,7 +47,7 @@ def demo_run(demo_src, tree, tag):
 
 
 def main():
-    outdir, name = sys.argv[1], sys.argv[2]
+    outdir, name = os.path.abspath(sys.argv[1]), sys.argv[2]
     meta = json.load(open(os.path.join(outdir, "meta.json")))
     prop = meta.get("property")
     checks = sys.argv[3:] or [prop]
